@@ -5,7 +5,10 @@ import json, os, subprocess, sys, concurrent.futures
 ROOT = os.path.dirname(os.path.dirname(os.path.abspath(__file__)))
 EXTRA = {"C01_1": ["C07"], "C01_2b": ["C06"], "C06_1": ["C02"], "C06_2": ["C14", "C20"], "C07_1": ["C13"], "C08_1": ["C09"],
          "C08_2": ["C17"], "C12_1": ["C05"], "C13_2": ["C07"], "C20_1": ["C13"], "C20_2": ["C14"], "C10_2": ["C13"],
-         "revF4": ["C11"], "revF6": ["C18"], "revF11": ["C03"], "revF14": ["C06"]}
+         "revF4": ["C11"], "revF6": ["C18"], "revF11": ["C03"], "revF14": ["C06"],
+         "C01_4": ["C14"], "C03_4": ["C18"], "C08_4": ["C18"], "C14_4": ["C18"], "C02_5": ["C08"], "C04_6": ["C19"],
+         "C07_6": ["C05"], "C18_6": ["C14"], "C09_5": ["C08"], "C10_6": ["C14"], "C12_5": ["C10"], "C16_5": ["C15"],
+         "C17_6": ["C07"], "C20_6": ["C03"], "C03_5": ["C18"], "revF23": ["C06"], "revF24": ["C16"]}
 
 def one(name):
     d = os.path.join(ROOT, "seeded", name)
